@@ -1,47 +1,81 @@
-/-! C19 calibration: the part of a dispatch block object that is not the private group — the
-    `dbpd_atomic_flags` word (DBF_CANCELED set-once), the `dbpd_performed` counter and the single
-    `dispatch_group_leave` of the first completion. Any number of invoking / cancelling threads. -/
+/-! C19: a dispatch block object — the `dbpd_atomic_flags` word (DBF_CANCELED set-once, DBF_WAITING / DBF_WAITED of
+    `dispatch_block_wait`), the `dbpd_performed` counter, the single `dispatch_group_leave` of the first completion, and
+    wait / notify delegated to the private group. Any number of invoking / cancelling / waiting / observing threads.
+    The private group is single-use (entered once at creation, left once): its contract — wait returns 0, and a
+    notification is submitted, only once the leave has happened — is `GroupPD.notify_not_early_single_use` and
+    `C07.wait_zero_sound`, taken here as the enabling condition of the corresponding steps. -/
 namespace BlockP
 
 abbrev Tid := Nat
 
-inductive Op | invoke | cancel | testcancel
+inductive Op | invoke | cancel | testcancel | wait | notify
 inductive Pc
   | idle
-  | started (sawCancel : Bool)      -- read atomic_flags at the top of the invoke function
+  | started (sawCancel : Bool) (afterCancel : Bool)
+                                    -- read atomic_flags at the top of the invoke function; afterCancel (ghost): a
+                                    -- dispatch_block_cancel call had already returned at that moment
   | body                            -- inside the block's body
   | completed                       -- about to `os_atomic_inc(performed)`
   | leaving                         -- saw the increment return 1: about to leave the group
   | tested (r : Bool)               -- dispatch_block_testcancel returned r
+  | waiting                         -- set DBF_WAITING; inside dispatch_group_wait on the private group
+  | waitRet (zero : Bool)           -- dispatch_group_wait returned (zero = result 0)
+  | trapped                         -- DISPATCH_CLIENT_CRASH: waited for twice
 deriving DecidableEq
 
 structure Sh where
-  canceled : Bool := false
+  canceled : Bool := false      -- DBF_CANCELED
+  waiting : Bool := false       -- DBF_WAITING
+  waited : Bool := false        -- DBF_WAITED
   performed : Nat := 0
   -- ghost history
   leaves : Nat := 0            -- dispatch_group_leave calls on the private group
   bodies : Nat := 0            -- body executions started
   skipped : Nat := 0           -- invocations that skipped the body
+  lateBodies : Nat := 0        -- body executions started by an invocation that began after a cancel call had returned
+  finished : Nat := 0          -- executions (body or skipped) that have completed
   cancelsDone : Nat := 0       -- completed dispatch_block_cancel calls
   leavers : List Tid := []     -- threads between the increment that returned 1 and the leave
+  completers : List Tid := []  -- threads between the end of their execution and the increment
+  registered : Nat := 0        -- dispatch_block_notify calls
+  pendingNotes : Nat := 0      -- notifications held by the private group
+  submittedNotes : Nat := 0    -- notifications submitted to their queue
+  zeroWaits : Nat := 0         -- dispatch_block_wait calls that returned 0
+
+def rm (l : List Tid) (t : Tid) : List Tid := l.filter (fun x => !decide (x = t))
 
 def step (sh : Sh) (t : Tid) (pc : Pc) (op : Op) : List (Sh × Pc) :=
   match pc with
   | .idle =>
     match op with
-    | .invoke => [(sh, .started sh.canceled)]                 -- atomic_flags = dbpd->dbpd_atomic_flags
+    | .invoke => [(sh, .started sh.canceled (decide (sh.cancelsDone ≥ 1)))]     -- atomic_flags = dbpd->dbpd_atomic_flags
     | .cancel => [({ sh with canceled := true, cancelsDone := sh.cancelsDone + 1 }, .idle)]   -- os_atomic_or(DBF_CANCELED)
     | .testcancel => [(sh, .tested sh.canceled)]
-  | .started c =>
-    if c then [({ sh with skipped := sh.skipped + 1 }, .completed)]
-    else [({ sh with bodies := sh.bodies + 1 }, .body)]
-  | .body => [(sh, .completed)]
+    | .wait =>                                                                   -- os_atomic_or_orig(DBF_WAITING)
+      if sh.waiting || sh.waited then [({ sh with waiting := true }, .trapped)]
+      else [({ sh with waiting := true }, .waiting)]
+    | .notify =>                                                                 -- dispatch_group_notify(dbpd_group, …)
+      if sh.leaves = 1 then [({ sh with registered := sh.registered + 1, submittedNotes := sh.submittedNotes + 1 }, .idle)]
+      else [({ sh with registered := sh.registered + 1, pendingNotes := sh.pendingNotes + 1 }, .idle)]
+  | .started c a =>
+    if c then [({ sh with skipped := sh.skipped + 1, finished := sh.finished + 1, completers := t :: sh.completers }, .completed)]
+    else [({ sh with bodies := sh.bodies + 1, lateBodies := sh.lateBodies + (if a then 1 else 0) }, .body)]
+  | .body => [({ sh with finished := sh.finished + 1, completers := t :: sh.completers }, .completed)]
   | .completed =>
     -- if (os_atomic_inc2o(dbpd, dbpd_performed) == 1) dispatch_group_leave(...)
-    let sh' := { sh with performed := sh.performed + 1 }
+    let sh' := { sh with performed := sh.performed + 1, completers := rm sh.completers t }
     if sh'.performed = 1 then [({ sh' with leavers := t :: sh.leavers }, .leaving)] else [(sh', .idle)]
-  | .leaving => [({ sh with leaves := sh.leaves + 1, leavers := sh.leavers.filter (fun x => !decide (x = t)) }, .idle)]
+  | .leaving =>
+    -- the private group's count reaches zero: its held notifications are submitted
+    [({ sh with leaves := sh.leaves + 1, leavers := rm sh.leavers t,
+                submittedNotes := sh.submittedNotes + sh.pendingNotes, pendingNotes := 0 }, .idle)]
   | .tested _ => [(sh, .idle)]
+  | .waiting =>
+    -- dispatch_group_wait: may time out at any moment; returns 0 only once the group is empty
+    (sh, .waitRet false) :: (if sh.leaves = 1 then [({ sh with zeroWaits := sh.zeroWaits + 1 }, .waitRet true)] else [])
+  | .waitRet false => [({ sh with waiting := false }, .idle)]                    -- os_atomic_and(~DBF_WAITING)
+  | .waitRet true => [({ sh with waited := true }, .idle)]                       -- os_atomic_or(DBF_WAITED)
+  | .trapped => []
 
 structure St where
   sh : Sh
@@ -60,97 +94,208 @@ def b2n (b : Bool) : Nat := if b then 1 else 0
 
 structure G (sh : Sh) : Prop where
   once : sh.leaves + sh.leavers.length = b2n (decide (sh.performed ≥ 1))
+  fin : sh.performed + sh.completers.length = sh.finished
   mono : sh.cancelsDone ≥ 1 → sh.canceled = true
   none : sh.canceled = false → sh.skipped = 0
+  late : sh.lateBodies = 0
+  reg : sh.registered = sh.pendingNotes + sh.submittedNotes
+  sub : sh.leaves = 0 → sh.submittedNotes = 0 ∧ sh.zeroWaits = 0
+  pen : sh.leaves ≥ 1 → sh.pendingNotes = 0
 
 structure L (sh : Sh) (t : Tid) (pc : Pc) : Prop where
   lv : sh.leavers.count t = b2n (decide (pc = .leaving))
+  cp : sh.completers.count t = b2n (decide (pc = .completed))
   tc : ∀ r, pc = .tested r → r = true → sh.canceled = true
-  sc : pc = .started true → sh.canceled = true
+  sc : ∀ a, pc = .started true a → sh.canceled = true
+  sa : ∀ c, pc = .started c true → c = true
+  wz : pc = .waitRet true → sh.leaves = 1
 
 abbrev Post (sh sh' : Sh) (t : Tid) (pc' : Pc) : Prop :=
   G sh' ∧ L sh' t pc' ∧ ∀ t' q, t' ≠ t → L sh t' q → L sh' t' q
 
 theorem others_of {sh sh' : Sh} {t : Tid}
-    (h1 : ∀ u, u ≠ t → sh'.leavers.count u = sh.leavers.count u) (h2 : sh.canceled = true → sh'.canceled = true) :
+    (h1 : ∀ u, u ≠ t → sh'.leavers.count u = sh.leavers.count u)
+    (h3 : ∀ u, u ≠ t → sh'.completers.count u = sh.completers.count u)
+    (h2 : sh.canceled = true → sh'.canceled = true)
+    (h4 : sh.leaves = 1 → sh'.leaves = 1) :
     ∀ t' q, t' ≠ t → L sh t' q → L sh' t' q := by
   intro t' q ne l
-  exact ⟨by rw [h1 t' ne]; exact l.lv, fun r e hr => h2 (l.tc r e hr), fun e => h2 (l.sc e)⟩
+  exact ⟨by rw [h1 t' ne]; exact l.lv, by rw [h3 t' ne]; exact l.cp, fun r e hr => h2 (l.tc r e hr), fun a e => h2 (l.sc a e),
+    l.sa, fun e => h4 (l.wz e)⟩
 
-theorem length_filter_ne (l : List Tid) (t : Tid) :
-    (l.filter (fun x => !decide (x = t))).length + l.count t = l.length := by
+theorem length_rm (l : List Tid) (t : Tid) : (rm l t).length + l.count t = l.length := by
+  unfold rm
   induction l with
   | nil => rfl
   | cons a l ih => by_cases e : a = t <;> simp [e, List.count_cons] at ih ⊢ <;> omega
 
-theorem count_filter_ne (l : List Tid) (t u : Tid) (h : u ≠ t) :
-    (l.filter (fun x => !decide (x = t))).count u = l.count u := by
-  exact List.count_filter (by simp [h])
+theorem count_rm_ne (l : List Tid) (t u : Tid) (h : u ≠ t) : (rm l t).count u = l.count u := by
+  unfold rm; exact List.count_filter (by simp [h])
+
+theorem count_rm_self (l : List Tid) (t : Tid) : (rm l t).count t = 0 := by
+  unfold rm; simp [List.count_eq_zero]
+
+theorem count_cons_ne (l : List Tid) (t u : Tid) (h : u ≠ t) : (t :: l).count u = l.count u := by
+  simp [List.count_cons, Ne.symm h]
+
+/-- the local claims at a pc that is none of the special ones -/
+theorem L_plain {sh : Sh} {t : Tid} {pc : Pc} (hl : sh.leavers.count t = 0) (hc : sh.completers.count t = 0)
+    (h1 : pc ≠ .leaving) (h2 : pc ≠ .completed) (h3 : ∀ r, pc ≠ .tested r) (h4 : ∀ c a, pc ≠ .started c a)
+    (h5 : pc ≠ .waitRet true) : L sh t pc :=
+  ⟨by simp [hl, h1, b2n], by simp [hc, h2, b2n], fun r e => absurd e (h3 r), fun a e => absurd e (h4 true a),
+   fun c e => absurd e (h4 c true), fun e => absurd e h5⟩
 
 theorem step_local {sh : Sh} {t : Tid} {pc : Pc} {op : Op} {sh' : Sh} {pc' : Pc}
     (g : G sh) (l : L sh t pc) (h : (sh', pc') ∈ step sh t pc op) : Post sh sh' t pc' := by
-  obtain ⟨go, gm, gn⟩ := g
-  obtain ⟨ll, lt, ls⟩ := l
+  obtain ⟨go, gf, gm, gn, gl, gr, gs, gp⟩ := g
+  obtain ⟨ll, lc, lt, ls, la, lw⟩ := l
   cases pc with
   | idle =>
-    simp [b2n] at ll
-    cases op <;> simp [step] at h <;> obtain ⟨rfl, rfl⟩ := h
-    · exact ⟨⟨go, gm, gn⟩, ⟨by simp [b2n, ll], (by intro r e; cases e), (fun e => Pc.started.inj e)⟩,
-        others_of (fun _ _ => rfl) (fun x => x)⟩
-    · exact ⟨⟨go, fun _ => rfl, by intro e; cases e⟩, ⟨by simp [b2n, ll], (by intro r e; cases e), by intro e; cases e⟩,
-        others_of (fun _ _ => rfl) (fun _ => rfl)⟩
-    · exact ⟨⟨go, gm, gn⟩, ⟨by simp [b2n, ll], (by intro r e hr; cases e; exact hr), by intro e; cases e⟩,
-        others_of (fun _ _ => rfl) (fun x => x)⟩
-  | started c =>
-    simp [b2n] at ll
+    simp [b2n] at ll lc
+    cases op with
+    | invoke =>
+      simp [step] at h; obtain ⟨rfl, rfl⟩ := h
+      refine ⟨⟨go, gf, gm, gn, gl, gr, gs, gp⟩, ⟨by simp [b2n, ll], by simp [b2n, lc], (by intro r e; cases e), ?_, ?_, by intro e; cases e⟩,
+        others_of (fun _ _ => rfl) (fun _ _ => rfl) (fun x => x) (fun x => x)⟩
+      · intro a e; exact (Pc.started.inj e).1
+      · intro c e
+        have e2 := (Pc.started.inj e).2
+        have e1 := (Pc.started.inj e).1
+        simp at e2; rw [← e1]; exact gm e2
+    | cancel =>
+      simp [step] at h; obtain ⟨rfl, rfl⟩ := h
+      exact ⟨⟨go, gf, fun _ => rfl, (by intro e; cases e), gl, gr, gs, gp⟩,
+        L_plain ll lc (by simp) (by simp) (by simp) (by simp) (by simp),
+        others_of (fun _ _ => rfl) (fun _ _ => rfl) (fun _ => rfl) (fun x => x)⟩
+    | testcancel =>
+      simp [step] at h; obtain ⟨rfl, rfl⟩ := h
+      exact ⟨⟨go, gf, gm, gn, gl, gr, gs, gp⟩,
+        ⟨by simp [b2n, ll], by simp [b2n, lc], (by intro r e hr; injection e with e; subst e; exact hr), (by intro a e; cases e),
+          (by intro c e; cases e), by intro e; cases e⟩,
+        others_of (fun _ _ => rfl) (fun _ _ => rfl) (fun x => x) (fun x => x)⟩
+    | wait =>
+      simp only [step] at h
+      split at h <;> (simp at h; obtain ⟨rfl, rfl⟩ := h)
+      · exact ⟨⟨go, gf, gm, gn, gl, gr, gs, gp⟩, L_plain ll lc (by simp) (by simp) (by simp) (by simp) (by simp),
+          others_of (fun _ _ => rfl) (fun _ _ => rfl) (fun x => x) (fun x => x)⟩
+      · exact ⟨⟨go, gf, gm, gn, gl, gr, gs, gp⟩, L_plain ll lc (by simp) (by simp) (by simp) (by simp) (by simp),
+          others_of (fun _ _ => rfl) (fun _ _ => rfl) (fun x => x) (fun x => x)⟩
+    | notify =>
+      simp only [step] at h
+      split at h
+      · rename_i h1
+        simp at h; obtain ⟨rfl, rfl⟩ := h
+        refine ⟨⟨go, gf, gm, gn, gl, ?_, ?_, gp⟩, L_plain ll lc (by simp) (by simp) (by simp) (by simp) (by simp),
+          others_of (fun _ _ => rfl) (fun _ _ => rfl) (fun x => x) (fun x => x)⟩
+        · show sh.registered + 1 = sh.pendingNotes + (sh.submittedNotes + 1); omega
+        · intro e; show sh.submittedNotes + 1 = 0 ∧ sh.zeroWaits = 0
+          have : sh.leaves = 0 := e
+          omega
+      · rename_i h1
+        simp at h; obtain ⟨rfl, rfl⟩ := h
+        refine ⟨⟨go, gf, gm, gn, gl, ?_, gs, ?_⟩, L_plain ll lc (by simp) (by simp) (by simp) (by simp) (by simp),
+          others_of (fun _ _ => rfl) (fun _ _ => rfl) (fun x => x) (fun x => x)⟩
+        · show sh.registered + 1 = sh.pendingNotes + 1 + sh.submittedNotes; omega
+        · intro e
+          have e' : sh.leaves ≥ 1 := e
+          have hle : sh.leaves ≤ 1 := by unfold b2n at go; split at go <;> omega
+          exact absurd (by omega : sh.leaves = 1) h1
+  | started c a =>
+    simp [b2n] at ll lc
     simp only [step] at h
     split at h
     · rename_i hc
       simp at h; obtain ⟨rfl, rfl⟩ := h
-      have hcan := ls (by rw [hc])
-      exact ⟨⟨go, gm, by intro e; rw [hcan] at e; cases e⟩, ⟨by simp [b2n, ll], (by intro r e; cases e), by intro e; cases e⟩,
-        others_of (fun _ _ => rfl) (fun x => x)⟩
-    · simp at h; obtain ⟨rfl, rfl⟩ := h
-      exact ⟨⟨go, gm, gn⟩, ⟨by simp [b2n, ll], (by intro r e; cases e), by intro e; cases e⟩,
-        others_of (fun _ _ => rfl) (fun x => x)⟩
+      have hcan := ls a (by rw [hc])
+      refine ⟨⟨go, ?_, gm, (by intro e; rw [hcan] at e; cases e), gl, gr, gs, gp⟩,
+        ⟨by simp [b2n, ll], by simp [b2n, lc], (by intro r e; cases e), (by intro a e; cases e), (by intro c e; cases e), by intro e; cases e⟩,
+        others_of (fun _ _ => rfl) (fun u hu => count_cons_ne _ _ _ hu) (fun x => x) (fun x => x)⟩
+      show sh.performed + (t :: sh.completers).length = sh.finished + 1
+      simp; omega
+    · rename_i hc
+      simp at h; obtain ⟨rfl, rfl⟩ := h
+      have ha : a = false := by
+        cases a with
+        | false => rfl
+        | true => have := la c rfl; exact absurd this hc
+      refine ⟨⟨go, gf, gm, gn, ?_, gr, gs, gp⟩, L_plain ll lc (by simp) (by simp) (by simp) (by simp) (by simp),
+        others_of (fun _ _ => rfl) (fun _ _ => rfl) (fun x => x) (fun x => x)⟩
+      show sh.lateBodies + (if a = true then 1 else 0) = 0
+      simp [ha, gl]
   | body =>
-    simp [b2n] at ll
+    simp [b2n] at ll lc
     simp [step] at h; obtain ⟨rfl, rfl⟩ := h
-    exact ⟨⟨go, gm, gn⟩, ⟨by simp [b2n, ll], (by intro r e; cases e), by intro e; cases e⟩,
-      others_of (fun _ _ => rfl) (fun x => x)⟩
+    refine ⟨⟨go, ?_, gm, gn, gl, gr, gs, gp⟩,
+      ⟨by simp [b2n, ll], by simp [b2n, lc], (by intro r e; cases e), (by intro a e; cases e), (by intro c e; cases e), by intro e; cases e⟩,
+      others_of (fun _ _ => rfl) (fun u hu => count_cons_ne _ _ _ hu) (fun x => x) (fun x => x)⟩
+    show sh.performed + (t :: sh.completers).length = sh.finished + 1
+    simp; omega
   | completed =>
-    simp [b2n] at ll
+    simp [b2n] at ll lc
+    have hlen := length_rm sh.completers t
     simp only [step] at h
     split at h
     · rename_i h1
       simp at h; obtain ⟨rfl, rfl⟩ := h
       have hp0 : sh.performed = 0 := by simp at h1; exact h1
-      refine ⟨⟨?_, gm, gn⟩, ⟨by simp [b2n, ll], (by intro r e; cases e), by intro e; cases e⟩,
-        others_of (by intro u hu; simp [List.count_cons, Ne.symm hu]) (fun x => x)⟩
-      have h0 : sh.leaves + sh.leavers.length = 0 := by simpa [hp0, b2n] using go
-      show sh.leaves + (t :: sh.leavers).length = b2n (decide (sh.performed + 1 ≥ 1))
-      rw [hp0]; simp [b2n]; omega
+      refine ⟨⟨?_, ?_, gm, gn, gl, gr, gs, gp⟩,
+        ⟨by simp [b2n, ll], by simp [b2n, count_rm_self], (by intro r e; cases e), (by intro a e; cases e), (by intro c e; cases e), by intro e; cases e⟩,
+        others_of (fun u hu => count_cons_ne _ _ _ hu) (fun u hu => count_rm_ne _ _ _ hu) (fun x => x) (fun x => x)⟩
+      · have h0 : sh.leaves + sh.leavers.length = 0 := by simpa [hp0, b2n] using go
+        show sh.leaves + (t :: sh.leavers).length = b2n (decide (sh.performed + 1 ≥ 1))
+        rw [hp0]; simp [b2n]; omega
+      · show sh.performed + 1 + (rm sh.completers t).length = sh.finished; omega
     · rename_i h1
       simp at h; obtain ⟨rfl, rfl⟩ := h
       have hp : sh.performed ≥ 1 := by simp at h1; omega
-      refine ⟨⟨?_, gm, gn⟩, ⟨by simp [b2n, ll], (by intro r e; cases e), by intro e; cases e⟩,
-        others_of (fun _ _ => rfl) (fun x => x)⟩
-      have h2 : sh.performed + 1 ≥ 1 := by omega
-      simp [hp, h2, b2n] at go ⊢; exact go
+      refine ⟨⟨?_, ?_, gm, gn, gl, gr, gs, gp⟩, L_plain ll (count_rm_self _ _) (by simp) (by simp) (by simp) (by simp) (by simp),
+        others_of (fun _ _ => rfl) (fun u hu => count_rm_ne _ _ _ hu) (fun x => x) (fun x => x)⟩
+      · have h2 : sh.performed + 1 ≥ 1 := by omega
+        simp [hp, h2, b2n] at go ⊢; exact go
+      · show sh.performed + 1 + (rm sh.completers t).length = sh.finished; omega
   | leaving =>
-    simp [b2n] at ll
-    have hlen := length_filter_ne sh.leavers t
+    simp [b2n] at ll lc
+    have hlen := length_rm sh.leavers t
     simp [step] at h; obtain ⟨rfl, rfl⟩ := h
-    refine ⟨⟨?_, gm, gn⟩, ⟨?_, (by intro r e; cases e), by intro e; cases e⟩,
-      others_of (by intro u hu; exact count_filter_ne _ _ _ hu) (fun x => x)⟩
-    · show sh.leaves + 1 + (sh.leavers.filter (fun x => !decide (x = t))).length = b2n (decide (sh.performed ≥ 1))
+    have hle : sh.leaves + sh.leavers.length ≤ 1 := by unfold b2n at go; split at go <;> omega
+    have hpos : sh.leavers.length ≥ 1 := by
+      have := List.count_le_length (a := t) (l := sh.leavers); omega
+    have hl0 : sh.leaves = 0 := by omega
+    refine ⟨⟨?_, gf, gm, gn, gl, ?_, ?_, fun _ => rfl⟩, L_plain (count_rm_self _ _) lc (by simp) (by simp) (by simp) (by simp) (by simp),
+      others_of (fun u hu => count_rm_ne _ _ _ hu) (fun _ _ => rfl) (fun x => x) ?_⟩
+    · show sh.leaves + 1 + (rm sh.leavers t).length = b2n (decide (sh.performed ≥ 1))
       omega
-    · simp [b2n, List.count_eq_zero]
+    · show sh.registered = 0 + (sh.submittedNotes + sh.pendingNotes); omega
+    · intro e; have : sh.leaves + 1 = 0 := e; omega
+    · intro e; rw [hl0] at e; cases e
   | tested r =>
-    simp [b2n] at ll
+    simp [b2n] at ll lc
     simp [step] at h; obtain ⟨rfl, rfl⟩ := h
-    exact ⟨⟨go, gm, gn⟩, ⟨by simp [b2n, ll], (by intro r e; cases e), by intro e; cases e⟩,
-      others_of (fun _ _ => rfl) (fun x => x)⟩
+    exact ⟨⟨go, gf, gm, gn, gl, gr, gs, gp⟩, L_plain ll lc (by simp) (by simp) (by simp) (by simp) (by simp),
+      others_of (fun _ _ => rfl) (fun _ _ => rfl) (fun x => x) (fun x => x)⟩
+  | waiting =>
+    simp [b2n] at ll lc
+    simp only [step, List.mem_cons] at h
+    rcases h with h | h
+    · simp at h; obtain ⟨rfl, rfl⟩ := h
+      exact ⟨⟨go, gf, gm, gn, gl, gr, gs, gp⟩, L_plain ll lc (by simp) (by simp) (by simp) (by simp) (by simp),
+        others_of (fun _ _ => rfl) (fun _ _ => rfl) (fun x => x) (fun x => x)⟩
+    · split at h
+      · rename_i h1
+        simp at h; obtain ⟨rfl, rfl⟩ := h
+        refine ⟨⟨go, gf, gm, gn, gl, gr, ?_, gp⟩,
+          ⟨by simp [b2n, ll], by simp [b2n, lc], (by intro r e; cases e), (by intro a e; cases e), (by intro c e; cases e), fun _ => h1⟩,
+          others_of (fun _ _ => rfl) (fun _ _ => rfl) (fun x => x) (fun x => x)⟩
+        intro e; have : sh.leaves = 0 := e; omega
+      · simp at h
+  | waitRet z =>
+    simp [b2n] at ll lc
+    cases z <;> (simp [step] at h; obtain ⟨rfl, rfl⟩ := h)
+    · exact ⟨⟨go, gf, gm, gn, gl, gr, gs, gp⟩, L_plain ll lc (by simp) (by simp) (by simp) (by simp) (by simp),
+        others_of (fun _ _ => rfl) (fun _ _ => rfl) (fun x => x) (fun x => x)⟩
+    · exact ⟨⟨go, gf, gm, gn, gl, gr, gs, gp⟩, L_plain ll lc (by simp) (by simp) (by simp) (by simp) (by simp),
+        others_of (fun _ _ => rfl) (fun _ _ => rfl) (fun x => x) (fun x => x)⟩
+  | trapped => simp [step] at h
 
 structure Inv (s : St) : Prop where
   g : G s.sh
@@ -158,7 +303,9 @@ structure Inv (s : St) : Prop where
 
 theorem inv_reachable {s : St} (h : Reachable s) : Inv s := by
   induction h with
-  | init => exact ⟨⟨by simp [b2n], by intro h; simp at h, fun _ => rfl⟩, fun _ => ⟨by simp [b2n], (by intro r e; cases e), by intro e; cases e⟩⟩
+  | init =>
+    exact ⟨⟨by simp [b2n], rfl, (by intro h; simp at h), fun _ => rfl, rfl, rfl, fun _ => ⟨rfl, rfl⟩, fun _ => rfl⟩,
+      fun _ => L_plain rfl rfl (by simp) (by simp) (by simp) (by simp) (by simp)⟩
   | step _ hs ih =>
     cases hs with
     | mk t op sh' pc' h =>
@@ -179,17 +326,50 @@ theorem leave_exactly_once {s : St} (h : Reachable s) :
   · intro hp; simp [hp, b2n] at this; exact this.1
 
 /-- **Cancellation is sticky and honest**: once a cancel call has returned, testcancel's flag is set
-    for good; an invocation skips the body only if the flag was set when it read it; no body is
-    skipped on a block that was never cancelled. -/
+    for good (the wait bookkeeping on the same word never clears it); an invocation skips the body only if the flag was
+    set when it read it; no body is skipped on a block that was never cancelled; and no invocation that begins after a
+    cancel call has returned runs the body. -/
 theorem cancel_semantics {s : St} (h : Reachable s) :
     (s.sh.cancelsDone ≥ 1 → s.sh.canceled = true) ∧ (s.sh.canceled = false → s.sh.skipped = 0) ∧
-    (∀ t, s.pcs t = .tested true → s.sh.canceled = true) := by
+    (∀ t, s.pcs t = .tested true → s.sh.canceled = true) ∧ s.sh.lateBodies = 0 := by
   have i := inv_reachable h
-  exact ⟨i.g.mono, i.g.none, fun t e => (i.l t).tc true e rfl⟩
+  exact ⟨i.g.mono, i.g.none, fun t e => (i.l t).tc true e rfl, i.g.late⟩
+
+/-- **wait and notify follow the execution**: `dispatch_block_wait` returns zero, and a notification is submitted, only after
+    an execution of the block (its body, or the skipped execution of a cancelled block) has completed; every notification
+    is submitted at most once, and exactly once as soon as the first completion has left the group. -/
+theorem wait_notify_follow_execution {s : St} (h : Reachable s) :
+    ((s.sh.zeroWaits ≥ 1 ∨ s.sh.submittedNotes ≥ 1 ∨ ∃ t, s.pcs t = .waitRet true) → s.sh.performed ≥ 1 ∧ s.sh.finished ≥ 1) ∧
+    s.sh.registered = s.sh.pendingNotes + s.sh.submittedNotes ∧
+    (s.sh.leaves = 1 → s.sh.submittedNotes = s.sh.registered) := by
+  have i := inv_reachable h
+  have hle : s.sh.leaves ≥ 1 → s.sh.performed ≥ 1 ∧ s.sh.finished ≥ 1 := by
+    intro hl
+    have := i.g.once
+    have hf := i.g.fin
+    by_cases hp : s.sh.performed ≥ 1
+    · exact ⟨hp, by omega⟩
+    · simp [hp, b2n] at this; omega
+  refine ⟨?_, i.g.reg, ?_⟩
+  · intro hh
+    apply hle
+    rcases hh with hh | hh | ⟨t, ht⟩
+    · by_cases h0 : s.sh.leaves = 0
+      · have := (i.g.sub h0).2; omega
+      · omega
+    · by_cases h0 : s.sh.leaves = 0
+      · have := (i.g.sub h0).1; omega
+      · omega
+    · have := (i.l t).wz ht; omega
+  · intro hl
+    have := i.g.pen (by omega)
+    have := i.g.reg
+    omega
 
 end BlockP
 
 section audit
 #print axioms BlockP.leave_exactly_once
 #print axioms BlockP.cancel_semantics
+#print axioms BlockP.wait_notify_follow_execution
 end audit
